@@ -147,6 +147,37 @@ def scheme_stage(chk):
     chk.obligation("corr:scheme", "correspondence", ok)
 
 
+def _without_base(x):
+    """A BaseException raised inside a pykka actor stops the actor system: not scripted here."""
+    if isinstance(x, list):
+        return ["raise", "exception"] if x == ["raise", "base"] else [_without_base(y) for y in x]
+    if isinstance(x, dict):
+        return {k: _without_base(v) for k, v in x.items()}
+    return x
+
+
+def pykka_stage(chk):
+    """The synchronous fake proxies against the same scripts run as real pykka ThreadingActors
+    behind real proxies: both must give the controllers the same observation."""
+    import c09_impl as I
+    import c09_pykka as K
+
+    n = 300 if chk.tier == "quick" else 4000
+    rng = vlib.Rng(chk.seed, "C09-pykka")
+    cases = [_without_base(c) for c in G.sweep_cases()[:: (4 if chk.tier == "quick" else 1)]]
+    cases += [_without_base(G.gen_case(rng)) for _ in range(n)]
+    ok = True
+    for idx, case in enumerate(cases):
+        a = I.run_case(copy.deepcopy(case), salt=idx)
+        b = K.run_case_pykka(copy.deepcopy(case), salt=idx)
+        if a != b:
+            ok = False
+            chk.corr_failure("pykka_proxies", case, {"fake_proxies": a, "pykka_actors": b})
+    chk.count(len(cases))
+    chk.dist("pykka-actor-cases", len(cases))
+    chk.obligation("corr:pykka_proxies", "correspondence", ok)
+
+
 FIRST_FIX = "402e4a8"  # library.py of its parent commit is the code modelled by run_old
 
 
@@ -250,7 +281,8 @@ def run(chk):
         "URI of every case and on a stream of odd strings; scheme ids are interned by the harness",
     ]
     chk.assumptions = [
-        "pykka proxies/futures are modelled as synchronous calls whose .get() raises or returns (not verified)",
+        "pykka proxies/futures are scripted as synchronous fakes whose .get() raises or returns; the fakes are "
+        "compared with real pykka ThreadingActors behind real proxies on a sample of the cases (corr:pykka_proxies)",
         "pydantic model classes: only isinstance() and .uri truthiness are modelled",
         "validation of the caller's own arguments (query/field/URI syntax) is an oracle: enumerated argument "
         "classes, URI scheme 0 = rejected by check_uri",
@@ -274,6 +306,7 @@ def run(chk):
     ok = run_cases(chk, cases, "main")
     chk.obligation("corr:routing", "correspondence", ok)
     scheme_stage(chk)
+    pykka_stage(chk)
     if chk.tier == "thorough":
         old_code_stage(chk, 6000)
     M.finish(chk)
